@@ -835,6 +835,10 @@ func getTypeFromEnv(runInfo *runInfoStruct, typeStruct *ast.TypeStruct) reflect.
 func makeValue(t reflect.Type) (reflect.Value, error) {
 	switch t.Kind() {
 	case reflect.Chan:
+		if t.ChanDir() != reflect.BothDir {
+			// reflect.MakeChan panics for a directional channel type (a field like time.Ticker.C): its zero value is nil
+			return reflect.Zero(t), nil
+		}
 		return reflect.MakeChan(t, 0), nil
 	case reflect.Func:
 		return reflect.MakeFunc(t, nil), nil
